@@ -305,3 +305,112 @@ def history_records(rid, scn, rnd, compiled, count=3):
         if res["status"] != "ok" or stream.tell() >= len(data):
             break
     return out
+
+
+# ------------------------------------------------------------------------------------------ C08: cuts and stream faults
+class InjectedFault(OSError):
+    pass
+
+
+class FaultyStream:
+    """A seekable stream whose k-th read call (0-based, counting calls that request at least one byte) either
+    delivers fewer bytes than requested (advancing only by what it delivered) or raises InjectedFault."""
+
+    def __init__(self, data, fault_call=None, kind="short", less=1):
+        self._b = io.BytesIO(data)
+        self.fault_call, self.kind, self.less = fault_call, kind, less
+        self.calls = []        # (requested, position) of every read call
+        self.n = 0
+
+    def read(self, n=-1):
+        pos = self._b.tell()
+        self.calls.append((n, pos))
+        counted = n is None or n != 0
+        k = self.n
+        if counted:
+            self.n += 1
+        if counted and k == self.fault_call:
+            if self.kind == "raise":
+                raise InjectedFault("injected stream fault")
+            data = self._b.read(n)
+            short = data[: max(0, len(data) - self.less)]
+            self._b.seek(pos + len(short))
+            return short
+        return self._b.read(n)
+
+    def seek(self, pos, whence=0):
+        return self._b.seek(pos, whence)
+
+    def tell(self):
+        return self._b.tell()
+
+
+def classify_fault(e):
+    if isinstance(e, InjectedFault):
+        return "injected"
+    return classify(e)
+
+
+def cut_and_fault_records(rid, scn, data, start, compiled, rnd, *, max_cuts=64, max_faults=24):
+    """All cuts of an accepted input, every single stream fault of its clean run, and a clean parse afterwards
+    (no residue).  Returns a list of records for Trace_Codec."""
+    t, mode = scn["type"], scn["mode"]
+    base = {"type": t, "mode": mode, "consts": scn["consts"] or {"_": 0}, "defs": scn["defs"], "req_compiled": compiled}
+    try:
+        cs = load(scn["defs"], mode, compiled)
+        T = getattr(cs, t["name"])
+    except Exception as e:  # noqa: BLE001
+        return [dict(base, id=rid, kind="parse", loaderr=f"{type(e).__name__}: {e}"[:300])]
+    out = []
+    lay = project_layout(T)
+    clean = FaultyStream(data)
+    clean.seek(start)
+    try:
+        T.read(clean)
+        end = clean.tell()
+    except Exception:  # noqa: BLE001
+        end = len(data)
+    # every cut point (sampled when there are many)
+    cuts = list(range(start, min(len(data), end + 2) + 1))
+    if len(cuts) > max_cuts:
+        cuts = sorted(rnd.sample(cuts, max_cuts))
+    for k in cuts:
+        res = observe_parse(T, t, data[:k], start, with_dump=False)
+        out.append(dict(base, id=rid + len(out), kind="parse", input=list(data[:k]), start=start, tag=f"cut@{k}",
+                        obs={"layout": lay, "res": res}))
+    # every single fault position of the clean run
+    ncalls = clean.n
+    faults = [(i, kind) for i in range(ncalls) for kind in ("short", "raise")]
+    if len(faults) > max_faults:
+        faults = rnd.sample(faults, max_faults)
+    for i, kind in faults:
+        st = FaultyStream(data, i, kind, less=rnd.choice([1, 1, 2, 100]))
+        st.seek(start)
+        try:
+            v = T.read(st)
+            res = {"status": "ok", "exc": "", "v": project(v, t), "pos": st.tell(), "sizes": sizes_of(v, T), "dump": NO_DUMP, "re": NO_RE}
+        except Exception as e:  # noqa: BLE001
+            res = {"status": classify_fault(e), "exc": f"{type(e).__name__}: {e}"[:200], "v": NONE_V, "pos": 0, "sizes": [],
+                   "dump": NO_DUMP, "re": NO_RE}
+        out.append(dict(base, id=rid + len(out), kind="fault", input=list(data), start=start, tag=f"fault@{i}:{kind}",
+                        fault={"call": i, "kind": kind}, obs={"layout": lay, "res": res}))
+        # no residue: the same types parse the complete input as if nothing had happened
+        if rnd.random() < 0.3:
+            res2 = observe_parse(T, t, data, start, with_dump=False)
+            out.append(dict(base, id=rid + len(out), kind="parse", input=list(data), start=start, tag="after-fault",
+                            obs={"layout": lay, "res": res2}))
+    return out
+
+
+def load_record(rid, scn, compiled):
+    """Does the definition load?  (Judged against WellFormed by Trace_Codec.)"""
+    t, mode = scn["type"], scn["mode"]
+    rec = {"id": rid, "kind": "load", "type": t, "mode": mode, "consts": scn["consts"] or {"_": 0}, "defs": scn["defs"],
+           "req_compiled": compiled, "input": [], "start": 0}
+    try:
+        load(scn["defs"], mode, compiled)
+        rec["loaded"] = True
+    except Exception as e:  # noqa: BLE001
+        rec["loaded"] = False
+        rec["exc"] = f"{type(e).__name__}: {e}"[:200]
+    return rec
